@@ -39,6 +39,7 @@ type solver struct {
 	cache   map[string]bool  // branch feasibility by independence slice (per worker, per harness)
 	named   map[string]*term // assertion name -> term (current session)
 	qc      *qcache
+	resets  int // (reset)s sent to this process: z3 4.8.12 does not give the memory back
 }
 
 // qcache is shared by the workers of one exploration: unsat cores and recent models
@@ -163,6 +164,12 @@ func (s *solver) send(str string) {
 func (s *solver) reset() {
 	if s.hist != nil {
 		s.hist.Reset()
+	}
+	if s.resets++; s.resets >= 20000 {
+		s.resets = 0
+		s.close()
+		s.start() // fresh process, see checkStandalone
+		return
 	}
 	s.send("(reset)")
 	s.pr = newPrinter()
@@ -417,6 +424,13 @@ func slowThreshold() time.Duration {
 // the incremental core. Used for validity queries only (no model needed).
 func (s *solver) checkStandalone(cs []*term, q *term) (string, []*term) {
 	t0 := time.Now()
+	if s.resets++; s.resets >= 5000 {
+		// a fresh process instead of the 5000th (reset): keeps a long exploration's solver
+		// from growing without bound
+		s.resets = 0
+		s.close()
+		s.start()
+	}
 	s.send("(reset)")
 	s.pr = newPrinter()
 	s.named = map[string]*term{}
